@@ -90,7 +90,7 @@ class ContractTask(Task):
                         cex = {k: solve.concretize(x, v.model) for k, x in ctx.inputs.items()}
                     except Exception as e:     # concretisation is best effort
                         cex = {"__error__": repr(e)}
-                detail = {"outcome": outcome, "decisions": list(unit),
+                detail = {"outcome": outcome, "decisions": list(unit), "backend": v.backend,
                           "model": str(v.model)[:2000] if v.model is not None else None}
             if (v.meta or {}).get("bounded") and v.status != "failed":
                 continue          # a bounded unrolling proves nothing: only its refutations are kept (for native replay)
@@ -408,7 +408,11 @@ def run_all(modname, tier, jobs):
                 return "Z3Exception" in str(p["crash"])
             # an obligation the solver gave up on: ask once more in a process whose z3 context is fresh
             # (a cancellation left behind by an earlier query makes every later answer "unknown")
-            return any(isinstance(o, dict) and o.get("status") == "unknown" for o in p.get("obs", []) or [])
+            # ... and a "failed" that rests on a candidate model only (the solver was undecided on the full query) is just
+            # as shaky as an "unknown"
+            return any(isinstance(o, dict) and (o.get("status") == "unknown" or
+                                                (o.get("status") == "failed" and "candidate" in str(o.get("backend", ""))))
+                       for o in p.get("obs", []) or [])
         redo = [i for i, p in enumerate(parts) if _shaky(p)]
         redo = [i for i in redo if units[i][2] not in (None, "TRUNCATED")]
         if redo and not serial:
@@ -609,6 +613,12 @@ def main(prop, tier, seed, jobs=None, update_baseline=False):
                 # the path that refuted it went through a construct the encoding only over-approximates (an unmodelled
                 # format directive, repr(), ...): without a native witness the refutation may be the encoding's own
                 undecided.append((name, f"sat-on-an-over-approximated-path {imprecise}", last_path))
+            elif not o["meta"].get("definite") and new_fail and all(
+                    "candidate" in str(((fl.get("detail") or {}) if isinstance(fl.get("detail"), dict) else {}).get("backend", ""))
+                    for fl in new_fail):
+                # the solver could not decide the query; what it offered is a model of the quantifier-free part only.  Without
+                # a native witness that is not a refutation (DESIGN 5: a violation needs a definite sat)
+                undecided.append((name, "candidate-counterexample-only (solver undecided on the full query)", last_path))
             elif name in base_ok or o["meta"].get("definite"):
                 real_viol.append(name)
                 lines.append(f"VIOLATION property={prop} replay={last_path} obligation={name} no-failing-input-found")
